@@ -84,7 +84,7 @@ func runBounded(prop, tmplPath, workDir string) boundedResult {
 	ctx, cancel := context.WithTimeout(context.Background(), 900*time.Second)
 	defer cancel()
 	t0 := time.Now()
-	cmd := exec.CommandContext(ctx, "go", "test", "-tags", "verif", "-overlay", ovFile, "-vet=off", "-count=1", "-timeout", "600s", "-run", "^TestGovcBounded$", "./"+res.Pkg+"/")
+	cmd := exec.CommandContext(ctx, "go", "test", "-tags", "verif", "-overlay", ovFile, "-v", "-vet=off", "-count=1", "-timeout", "600s", "-run", "^TestGovcBounded$", "./"+res.Pkg+"/")
 	cmd.Dir = root
 	cmd.Env = append(os.Environ(), "GOFLAGS=-mod=mod", "GOPROXY=off", "GOSUMDB=off", "GOTOOLCHAIN=local")
 	b, _ := cmd.CombinedOutput()
